@@ -16,61 +16,61 @@ use crate::common::*;
 use crate::wire::*;
 
 #[derive(Clone)]
-enum Sk {
+pub enum Sk {
     P(SecretKey),
     S(SecretSubkey),
 }
 
 impl Sk {
-    fn params(&self) -> &SecretParams {
+    pub fn params(&self) -> &SecretParams {
         match self {
             Sk::P(k) => k.secret_params(),
             Sk::S(k) => k.secret_params(),
         }
     }
-    fn set(&mut self, pw: &Password, p: S2kParams) -> pgp::errors::Result<()> {
+    pub fn set(&mut self, pw: &Password, p: S2kParams) -> pgp::errors::Result<()> {
         match self {
             Sk::P(k) => k.set_password_with_s2k(pw, p),
             Sk::S(k) => k.set_password_with_s2k(pw, p),
         }
     }
-    fn remove(&mut self, pw: &Password) -> pgp::errors::Result<()> {
+    pub fn remove(&mut self, pw: &Password) -> pgp::errors::Result<()> {
         match self {
             Sk::P(k) => k.remove_password(pw),
             Sk::S(k) => k.remove_password(pw),
         }
     }
-    fn unlock(&self, pw: &Password) -> pgp::errors::Result<PlainSecretParams> {
+    pub fn unlock(&self, pw: &Password) -> pgp::errors::Result<PlainSecretParams> {
         match self {
             Sk::P(k) => k.unlock(pw, |_, p| Ok(p.clone()))?,
             Sk::S(k) => k.unlock(pw, |_, p| Ok(p.clone()))?,
         }
     }
-    fn packet(&self) -> Packet {
+    pub fn packet(&self) -> Packet {
         match self {
             Sk::P(k) => Packet::from(k.clone()),
             Sk::S(k) => Packet::from(k.clone()),
         }
     }
-    fn tag(&self) -> u8 {
+    pub fn tag(&self) -> u8 {
         match self {
             Sk::P(_) => 5,
             Sk::S(_) => 7,
         }
     }
-    fn public_body(&self) -> Vec<u8> {
+    pub fn public_body(&self) -> Vec<u8> {
         match self {
             Sk::P(k) => k.public_key().to_bytes().unwrap_or_default(),
             Sk::S(k) => k.public_key().to_bytes().unwrap_or_default(),
         }
     }
-    fn v6(&self) -> bool {
+    pub fn v6(&self) -> bool {
         match self {
             Sk::P(k) => k.version() == pgp::types::KeyVersion::V6,
             Sk::S(k) => k.version() == pgp::types::KeyVersion::V6,
         }
     }
-    fn parse(bytes: &[u8]) -> Result<Sk, String> {
+    pub fn parse(bytes: &[u8]) -> Result<Sk, String> {
         match PacketParser::new(bytes).next() {
             Some(Ok(Packet::SecretKey(k))) => Ok(Sk::P(k)),
             Some(Ok(Packet::SecretSubkey(k))) => Ok(Sk::S(k)),
@@ -80,7 +80,7 @@ impl Sk {
         }
     }
     /// the secret packet body (without framing)
-    fn body(&self) -> Result<Vec<u8>, String> {
+    pub fn body(&self) -> Result<Vec<u8>, String> {
         let b = self.packet().to_bytes().map_err(|e| e.to_string())?;
         let (d, used) = deframe_one(&b)?;
         if used != b.len() {
@@ -88,7 +88,7 @@ impl Sk {
         }
         Ok(d.body)
     }
-    fn blob_len(&self) -> usize {
+    pub fn blob_len(&self) -> usize {
         match self.params() {
             SecretParams::Encrypted(e) => e.data().len(),
             _ => 0,
